@@ -8,8 +8,8 @@
    record / the result record / the end marker, end regularly, die with any
    exit code at any point).  `None` = the schedule ended before the call
    returned; `Some (Done r)` = it returned r; `Some (Fail e)` = it raised. *)
-From Coq Require Import ZArith List Bool Arith Lia.
-From Sky Require Import Result G_parallel M_Parallel P_Parallel P_ParallelLoud P_ParallelTop.
+From Coq Require Import ZArith List Bool Arith Lia Permutation.
+From Sky Require Import Result G_parallel M_Parallel P_Parallel P_ParallelLoud P_ParallelTop P_ParallelPerm.
 Import ListNotations.
 Local Open Scope nat_scope.
 
@@ -49,6 +49,18 @@ Theorem C09_gather_order : forall (R : Type) (np : nat) (wres : nat -> res (list
   exists rs, Forall2 (fun p x => wres p = Ok x) (seq 1 np) rs /\ r = r0 ++ concat rs.
 Proof. exact @gather_safe. Qed.
 Print Assumptions C09_gather_order.
+
+(* the re-assembly alone, as a statement about arrival orders: for EVERY
+   permutation of the workers' result records, storing them into
+   pid_result_list_map as they arrive and concatenating by pid gives the
+   master's results followed by the workers' in pid order *)
+Theorem C09_order_perm : forall (R : Type) (np : nat) (xs : list (list R)) (r0 : list R)
+    (arr : list (nat * list R)),
+  length xs = np ->
+  Permutation arr (combine (seq 1 np) xs) ->
+  assemble (fold_left (fun d e => dset (fst e) (snd e) d) arr [(0, r0)]) = Ok (r0 ++ concat xs).
+Proof. exact @assemble_any_arrival. Qed.
+Print Assumptions C09_order_perm.
 
 (* LOUD.  Whatever happened before (schedule s1: any deliveries, any deaths,
    any polls), once every child process has ended - regularly or not - the call
